@@ -1,12 +1,16 @@
 //! `pscv <ID> --tier quick|thorough [--replay <file>]` — model-checking harness for
 //! parity-scale-codec (see /verif/DESIGN.md).
 
+mod alloc;
 mod checks;
 mod common;
 mod oracle;
 mod space;
 
 use common::*;
+
+#[global_allocator]
+static GLOBAL: alloc::Counting = alloc::Counting;
 use std::process::Command;
 
 /// Properties for which the death of the checking process is itself a violation.
@@ -27,6 +31,7 @@ fn run_check(id: &str, tier: Tier) -> i32 {
 		"C05" => checks::c05::run(tier, &reg),
 		"C06" => checks::c06::run(tier, &reg),
 		"C07" => checks::c07::run(tier, &reg),
+		"C09" => checks::c09::run(tier, &reg),
 		"C13" => checks::c13::run(tier, &reg),
 		"C14" => checks::c14::run(tier, &reg),
 		"C15" => checks::c15::run(tier),
@@ -55,6 +60,7 @@ fn run_replay(id: &str, path: &str) -> i32 {
 		"C05" => checks::c05::replay(&reg, case),
 		"C06" => checks::c06::replay(&reg, case),
 		"C07" => checks::c07::replay(&reg, case),
+		"C09" => checks::c09::replay(&reg, case),
 		"C13" => checks::c13::replay(&reg, case),
 		"C14" => checks::c14::replay(&reg, case),
 		"C15" => checks::c15::replay(case),
@@ -90,6 +96,10 @@ fn main() {
 		let code = match args.get(1).map(|s| s.as_str()) {
 			Some("c05skip") => checks::c05::worker(&reg, &args[2..]),
 			Some("c05skip1") => checks::c05::worker_one(&reg, &args[2..]),
+			Some("c09") => {
+				heartbeat_init_keep("C09");
+				checks::c09::worker(&reg, &args[2..])
+			},
 			_ => 2,
 		};
 		std::process::exit(code);
